@@ -194,7 +194,7 @@ def run(ctx):
             for n in walk_no_nested(f.node):
                 if isinstance(n, ast.Attribute) and isinstance(n.value, ast.Name) and n.value.id == me and n.attr in RANDOM_ATTRS and isinstance(n.ctx, ast.Load):
                     attrs.add(n.attr)
-        if history_appends(sample) or any(True for _ in _hist_appends(mu)):
+        if history_appends(sample, repo, smc) or any(True for _ in _hist_appends(mu)):
             attrs.add("history")
         attrs -= set(EXEMPT_ATTRS)
         ces = c.resolve("_checkpoint_extra_state")
